@@ -473,17 +473,19 @@ void a_complex_asin_(a_complex *ctx)
             a_real am1;
             if (x < 1)
             {
-                am1 = A_REAL_C(0.5) * (y2 / (r + x + 1) + y2 / (s + 1 - x));
+                /* am1 = y*y*k, evaluated without forming y*y (which underflows for tiny y) */
+                a_real const k = A_REAL_C(0.5) * (1 / (r + x + 1) + 1 / (s + 1 - x));
+                ctx->imag = a_real_log1p(y * (y * k + a_real_sqrt((a + 1) * k)));
             }
             else
             {
                 am1 = A_REAL_C(0.5) * (y2 / (r + x + 1) + (s + x - 1));
+                ctx->imag = a_real_log1p(am1 + a_real_sqrt((a + 1) * am1));
             }
-            ctx->imag = a_real_log1p(am1 + a_real_sqrt((a + 1) * am1));
         }
         else
         {
-            ctx->imag = a_real_log(a + a_real_sqrt(a * a - 1));
+            ctx->imag = a_real_log(a) + a_real_log1p(a_real_sqrt(1 - 1 / a / a)); /* log(a+sqrt(a*a-1)) without squaring a */
         }
         if (real < 0) { ctx->real = -ctx->real; }
         if (imag < 0) { ctx->imag = -ctx->imag; }
@@ -564,17 +566,19 @@ void a_complex_acos_(a_complex *ctx)
             a_real am1;
             if (x < 1)
             {
-                am1 = A_REAL_C(0.5) * (y2 / (r + x + 1) + y2 / (s + 1 - x));
+                /* am1 = y*y*k, evaluated without forming y*y (which underflows for tiny y) */
+                a_real const k = A_REAL_C(0.5) * (1 / (r + x + 1) + 1 / (s + 1 - x));
+                ctx->imag = a_real_log1p(y * (y * k + a_real_sqrt((a + 1) * k)));
             }
             else
             {
                 am1 = A_REAL_C(0.5) * (y2 / (r + x + 1) + (s + x - 1));
+                ctx->imag = a_real_log1p(am1 + a_real_sqrt((a + 1) * am1));
             }
-            ctx->imag = a_real_log1p(am1 + a_real_sqrt((a + 1) * am1));
         }
         else
         {
-            ctx->imag = a_real_log(a + a_real_sqrt(a * a - 1));
+            ctx->imag = a_real_log(a) + a_real_log1p(a_real_sqrt(1 - 1 / a / a)); /* log(a+sqrt(a*a-1)) without squaring a */
         }
         if (real < 0) { ctx->real = A_REAL_PI - ctx->real; }
         if (imag >= 0) { ctx->imag = -ctx->imag; }
